@@ -485,6 +485,39 @@ pub fn run(ctx: &'static Ctx) -> (&'static str, Value, Vec<&'static str>) {
         .reduce(Stats::new, Stats::merge);
     // VCP cut counts and clutter counts
     let mut sd = Stats::new();
+    // message-header field extremes through the stream decoder: type code x size field x segment
+    // count x segment number (under the variable-length marker 0xFFFF the last two read as a 32-bit
+    // size of up to 4 GiB) x what follows the header; memory must stay bounded by the input
+    {
+        let small_body = {
+            let (h, b) = simple_radial(1, 1, 19000, 5, &[3], 4, Some(212));
+            t31_body(&h, &b, &Layout::default()).0
+        };
+        let tails: [Vec<u8>; 3] = [vec![], small_body, vec![0u8; FRAME - MSG_HEADER]];
+        let mut i = 0u64;
+        for typ in [31u8, 2, 5, 15, 13, 18, 0, 200] {
+            for size in [0u16, 1, 8, 9, 0x04B8, 0x7FFF, 0xFFFE, 0xFFFF] {
+                for count in [0u16, 1, 0x0100, 0x7FFF, 0xFFFF] {
+                    for number in [0u16, 1, 0x7FFF, 0xFFFF] {
+                        for tail in tails.iter() {
+                            let mut mh = MsgHeader::simple(typ, 19000, 0);
+                            mh.size = size;
+                            mh.count = count;
+                            mh.number = number;
+                            let mut msg = mh.encode();
+                            msg.extend_from_slice(tail);
+                            begin_case(CaseId { a: 9, b: i, c: 0 });
+                            let o = call(ctx, 0, 0, &msg, "message-header field extremes (stream)", &mut sd);
+                            end_case();
+                            sd.outcome(o);
+                            sd.count("message_header_extremes", 1);
+                            i += 1;
+                        }
+                    }
+                }
+            }
+        }
+    }
     // many pointers aliasing one (or two) large moment blocks that are fully present: peak memory
     // must stay linear in the input, not pointers x block size
     for &np in &[16usize, 255, 1024, 4096] {
@@ -637,7 +670,7 @@ pub fn run(ctx: &'static Ctx) -> (&'static str, Value, Vec<&'static str>) {
     stats.sample(3, || json!({"entry": "decode_digital_radar_data", "origin": "field extremes", "bytes_hex": hex(&ext[ext.len() / 2][..64.min(ext[ext.len() / 2].len())])}));
     stats.sample(3, || json!({"entry": "decode_messages", "origin": "prefix", "stream": ["t31_basic", "status"], "cut": 1234}));
     let cov = stats.coverage(
-        "(a) every prefix (quick: every 3rd inside long streams) of all valid streams of length <=2 over the C03 alphabet (thorough + a quarter of length 3), through decode_messages, decode_message_contents and the body decoder; (b) every single-byte mutation position x 8 values of 9 small streams and every pair of mutations on structural bytes (type code, block count, pointers, block names, gates, word size) i.e. all executions with <=2 deviations; (c) product of field extremes for type-31 (block count x pointer values x 15 names x gates x word sizes), VCP cut counts, clutter segment/zone counts, and 16..4096 pointers aliasing one or two fully present large moment blocks (memory must stay linear); (d) all byte strings of length <=2 x all 256 type codes and all strings of length 3..=6 (thorough ..=8) over {00,01,1F,FF,R,V,O,L} at every entry point. Each call: no panic, reader fuel 64+8*len not exhausted, allocator peak <= 4 MiB + 64*len; radial()/into_radial() on every type-31 message that decoded",
+        "(a) every prefix (quick: every 3rd inside long streams) of all valid streams of length <=2 over the C03 alphabet (thorough + a quarter of length 3), through decode_messages, decode_message_contents and the body decoder; (b) every single-byte mutation position x 8 values of 9 small streams and every pair of mutations on structural bytes (type code, block count, pointers, block names, gates, word size) i.e. all executions with <=2 deviations; (c) product of field extremes for type-31 (block count x pointer values x 15 names x gates x word sizes), VCP cut counts, clutter segment/zone counts, message-header extremes (8 type codes x 8 size fields x 5 segment counts x 4 segment numbers x 3 tails, incl. the variable-length marker with 32-bit sizes up to 4 GiB), and 16..4096 pointers aliasing one or two fully present large moment blocks (memory must stay linear); (d) all byte strings of length <=2 x all 256 type codes and all strings of length 3..=6 (thorough ..=8) over {00,01,1F,FF,R,V,O,L} at every entry point. Each call: no panic, reader fuel 64+8*len not exhausted, allocator peak <= 4 MiB + 64*len; radial()/into_radial() on every type-31 message that decoded",
         true,
         json!({"deviation_bound": 2, "alphabet": alpha, "max_len": maxlen, "not_covered": "uniformly random bytes (sampling); strings differing from a valid stream in >=3 unrelated places"}),
     );
